@@ -1102,13 +1102,23 @@ impl Compiler {
         for p in func.params {
             self.symtab.define(&p.value, 0);
         }
+        // Only a final expression statement (possibly the last one of a final
+        // block) is the function's implicit result
+        fn ends_in_expr(stmts: &[Statement]) -> bool {
+            match stmts.last() {
+                Some(Statement::Block(b)) => ends_in_expr(&b.statements),
+                Some(last) => last.is_expression(),
+                None => false,
+            }
+        }
+        let ends_in_expr = ends_in_expr(&func.body.statements);
         self.compile_block_statement(func.body)?;
         // Leave function scope. If the last expression statement in a
         // function is not turned into an implicit return value, but
         // is still followed by an OpPop instruction, the fix the
         // instruction after compiling the function’s body but before
         // leaving the scope.
-        if self.is_last_instruction(Opcode::Pop) {
+        if ends_in_expr && self.is_last_instruction(Opcode::Pop) {
             self.replace_last_pop_with_return();
         }
         if !self.is_last_instruction(Opcode::ReturnValue) {
